@@ -4,8 +4,8 @@ import json, os
 V = os.path.dirname(os.path.dirname(os.path.abspath(__file__)))
 TECH = 'bounded symbolic model checking of the real code: clang-14 LLVM IR of tlx + harness -> own IR->C translator (engine/ll2c.py) -> CBMC 6.11 SAT queries with unwinding assertions; counterexamples replayed on the native g++ build'
 CLAIMED = {
- 'C20': dict(text='Bit-vector equivalence of every listed helper (intrinsic overload, *_template, *_generic, x86 asm rotate) with a definitional reference, decided by SAT over the full 8/16/32/64-bit domain of each type; bounded only by the type widths. Division kernels wider than 8 bit and Aggregate are not yet covered (see level_note).',
-             note='Trusts clang-14 -O1 lowering, ll2c, CBMC/MiniSat. Excluded by assumption: log2/rounding of x <= 0, k == 0, negative operands of div_ceil, n+k-1 not representable. div_ceil/round_up only for uint8_t operands so far; Aggregate not yet decided.',
+ 'C20': dict(text='(a) Bit-vector equivalence of every listed helper (intrinsic overload, *_template, *_generic, x86 asm rotate) with a definitional C reference, decided by SAT over the full 8/16/32/64-bit domain of each type. (b) div_ceil / round_up for 16/32/64-bit signed and unsigned operands by integer SMT over the clang IR (Int with explicit mod-2^N wrap; z3 and cvc5 must agree), full domain. (c) Aggregate<double>: A + B and A += B vs feeding all values into one aggregate, for every pair of multiset sizes 0..3 and ALL real values, as polynomial identities in real arithmetic (QF_NRA) over the clang IR of the real class - the property itself says "up to floating-point rounding".',
+             note='Trusts clang-14 lowering, ll2c / ll2smt, CBMC/MiniSat, z3, cvc5. Excluded by assumption: log2/rounding of x <= 0, k == 0, negative operands of div_ceil, n+k-1 not representable. Aggregate over the reals: IEEE rounding, NaN and infinities are outside; multisets larger than 3+3 outside.',
              ref='DESIGN.md §4 C20'),
 }
 CLAIMED.update({
